@@ -12,26 +12,26 @@ import (
 )
 
 var gens = map[string]func(props.Ctx) *report.Report{
-	"C20": props.C20,
-	"C01": props.C01,
-	"C02": props.C02,
-	"C03": props.C03,
-	"C04": props.C04,
-	"C05": props.C05,
-	"C06": props.C06,
-	"C07": props.C07,
-	"C08": props.C08,
-	"C12": props.C12,
-	"C13": props.C13,
-	"C15": props.C15,
-	"C18": props.C18,
-	"C09": props.C09,
-	"C10": props.C10,
-	"C11": props.C11,
-	"C14": props.C14,
-	"C16": props.C16,
-	"C17": props.C17,
-	"C19": props.C19,
+	"C20":  props.C20,
+	"C01":  props.C01,
+	"C02":  props.C02,
+	"C03":  props.C03,
+	"C04":  props.C04,
+	"C05":  props.C05,
+	"C06":  props.C06,
+	"C07":  props.C07,
+	"C08":  props.C08,
+	"C12":  props.C12,
+	"C13":  props.C13,
+	"C15":  props.C15,
+	"C18":  props.C18,
+	"C09":  props.C09,
+	"C10":  props.C10,
+	"C11":  props.C11,
+	"C14":  props.C14,
+	"C16":  props.C16,
+	"C17":  props.C17,
+	"C19":  props.C19,
 	"CALC": props.CalcAll,
 	"HIST": props.HistAll,
 }
